@@ -13,12 +13,12 @@ EnvS0 ==
   /\ LET x == Script[NEnv + 1] IN
      CASE x.a = "run"   -> RunStart /\ Log(E("run", "", 0, "", "", FALSE)) /\ UNCHANGED plan
        [] x.a = "stop"  -> StopBegin(x.s) /\ Log(E("stop", "", 0, "", x.s, FALSE)) /\ UNCHANGED plan
-       [] x.a = "dial"  -> Dial(x.c) /\ Log(E("dial", x.c, 0, "", "", FALSE)) /\ UNCHANGED plan
+       [] x.a = "dial"  -> DialAs(x.c, IF x.k = "" THEN "valid" ELSE x.k) /\ Log(E("dial", x.c, 0, IF x.k = "" THEN "valid" ELSE x.k, "", FALSE)) /\ UNCHANGED plan
        [] x.a = "close" -> ClientClose(x.c) /\ Log(E("close", x.c, 0, "", "", FALSE)) /\ UNCHANGED plan
        [] x.a = "stopreading" -> StopReading(x.c) /\ Log(E("stopreading", x.c, 0, "", "", FALSE)) /\ UNCHANGED plan
        [] x.a = "send"  -> /\ Send(x.c, x.k) /\ Log(E("send", x.c, sent[x.c] + 1, x.k, "", x.hold))
                            /\ plan' = [plan EXCEPT ![x.c][sent[x.c] + 1] = x.hold]
-       [] x.a = "release" -> /\ plan[x.c][x.i] /\ hs[x.c][x.i] = "running" /\ plan' = [plan EXCEPT ![x.c][x.i] = FALSE]
+       [] x.a = "release" -> /\ plan[x.c][x.i] /\ hs[x.c][x.i] \in {"running", "inline"} /\ plan' = [plan EXCEPT ![x.c][x.i] = FALSE]
                              /\ Log(E("release", x.c, x.i, "", "", FALSE)) /\ UNCHANGED vars
        [] x.a = "panic" -> /\ plan[x.c][x.i] /\ hs[x.c][x.i] = "running" /\ HPanic(x.c, x.i) /\ plan' = [plan EXCEPT ![x.c][x.i] = FALSE]
                            /\ Log(E("panic", x.c, x.i, "", "", FALSE))
